@@ -209,7 +209,6 @@ func specHasHandler(op string) bool { _, ok := opcodeEvalFns[op]; return ok }
 
 //@ func processArithmeticInst
 //@ props C03 C07
-//@ option no-panic-obligations
 //@ requires env != nil && env.Client != nil && env.AsmDB != nil
 //@ calls[mode@C03] (*ng_operand.OperandPegImpl).WithBitMode : arg1 == env.BitMode
 //@ calls[size@C03] (*asmdb.InstructionDB).FindMinOutputSize : arg1 == instName && vcSame(arg2, vcResult[ng_operand.Operands]("WithBitMode", 0))
@@ -224,7 +223,6 @@ func specHasHandler(op string) bool { _, ok := opcodeEvalFns[op]; return ok }
 
 //@ func processLogicalInst
 //@ props C03 C07
-//@ option no-panic-obligations
 //@ requires env != nil && env.Client != nil && env.AsmDB != nil
 //@ calls[mode@C03] (*ng_operand.OperandPegImpl).WithBitMode : arg1 == env.BitMode
 //@ calls[size@C03] (*asmdb.InstructionDB).FindMinOutputSize : arg1 == instName && vcSame(arg2, vcResult[ng_operand.Operands]("WithBitMode", 0))
@@ -235,24 +233,25 @@ func specHasHandler(op string) bool { _, ok := opcodeEvalFns[op]; return ok }
 
 //@ func processNOT
 //@ props C03 C07
-//@ option no-panic-obligations
 //@ requires env != nil && env.Client != nil && env.AsmDB != nil
+//@ requires[A1] forall(0, len(operands), func(k int) bool { return operands[k] != nil })
 //@ calls[mode@C03] (*ng_operand.OperandPegImpl).WithBitMode : arg1 == env.BitMode
 //@ calls[size@C03] (*asmdb.InstructionDB).FindMinOutputSize : arg1 == "NOT" && vcSame(arg2, vcResult[ng_operand.Operands]("WithBitMode", 0))
 //@ ensures[loc@C03] vcCalled("Emit") ==> vcCalled("FindMinOutputSize") && env.LOC == old(env.LOC)+int32(vcResult[int]("FindMinOutputSize", 0))
 //@ ensures[loc.none@C03] !vcCalled("Emit") ==> env.LOC == old(env.LOC)
 //@ ensures[nodrop@C07] vcCalled("Emit") || vcLoggedError()
+//@ ensures[count@C07] len(operands) != 1 ==> vcLoggedError() && !vcCalled("Emit") && env.LOC == old(env.LOC)
 //@ assigns Pass1.LOC, ocodeClient.Ocodes, OperandPegImpl.bitMode, OperandType[]
 
 //@ func processMOV
 //@ props C03 C07
-//@ option no-panic-obligations
 //@ requires env != nil && env.Client != nil && env.AsmDB != nil
 //@ calls[mode@C03] (*ng_operand.OperandPegImpl).WithBitMode : arg1 == env.BitMode
 //@ calls[size@C03] (*asmdb.InstructionDB).FindMinOutputSize : arg1 == "MOV" && vcSame(arg2, vcResult[ng_operand.Operands]("WithForceRelAsImm", 0))
 //@ ensures[loc@C03] vcCalled("Emit") ==> vcCalled("FindMinOutputSize") && env.LOC == old(env.LOC)+int32(vcResult[int]("FindMinOutputSize", 0))
 //@ ensures[loc.none@C03] !vcCalled("Emit") ==> env.LOC == old(env.LOC)
 //@ ensures[nodrop@C07] vcCalled("Emit") || vcLoggedError()
+//@ ensures[count@C07] len(operands) != 2 ==> vcLoggedError() && !vcCalled("Emit") && env.LOC == old(env.LOC)
 //@ assigns Pass1.LOC, ocodeClient.Ocodes, OperandPegImpl.bitMode, OperandPegImpl.forceRelAsImm, OperandType[]
 
 // Operand-less mnemonics: one byte each on both sides (the emitter's table gives exactly one byte
@@ -270,11 +269,11 @@ func specHasHandler(op string) bool { _, ok := opcodeEvalFns[op]; return ok }
 
 //@ func processINT
 //@ props C03 C07
-//@ option no-panic-obligations
 //@ requires env != nil && env.Client != nil
 //@ ensures[loc@C03] vcCalled("Emit") ==> env.LOC == old(env.LOC)+2
 //@ ensures[loc.none@C03] !vcCalled("Emit") ==> env.LOC == old(env.LOC)
 //@ ensures[nodrop@C07] vcCalled("Emit") || vcLoggedError()
+//@ ensures[count@C07] len(operands) != 1 ==> vcLoggedError() && !vcCalled("Emit") && env.LOC == old(env.LOC)
 //@ assigns Pass1.LOC, ocodeClient.Ocodes
 
 //@ func processRET
@@ -286,17 +285,17 @@ func specHasHandler(op string) bool { _, ok := opcodeEvalFns[op]; return ok }
 
 //@ func processLGDT
 //@ props C03 C07
-//@ option no-panic-obligations
 //@ requires env != nil && env.Client != nil
+//@ requires[A1] forall(0, len(operands), func(k int) bool { return operands[k] != nil })
 //@ calls[mode@C03] (*ng_operand.OperandPegImpl).WithBitMode : arg1 == env.BitMode
 //@ ensures[loc@C03] vcCalled("Emit") ==> vcCalled("CalcOffsetByteSize") && env.LOC == old(env.LOC)+3+int32(vcResult[int]("CalcOffsetByteSize", 0))
 //@ ensures[loc.none@C03] !vcCalled("Emit") ==> env.LOC == old(env.LOC)
 //@ ensures[nodrop@C07] vcCalled("Emit") || vcLoggedError()
+//@ ensures[count@C07] len(operands) != 1 ==> vcLoggedError() && !vcCalled("Emit") && env.LOC == old(env.LOC)
 //@ assigns Pass1.LOC, ocodeClient.Ocodes, OperandPegImpl.bitMode, OperandType[]
 
 //@ func processOUT
 //@ props C03 C07
-//@ option no-panic-obligations
 //@ requires env != nil && env.Client != nil && env.AsmDB != nil
 //@ calls[mode@C03] (*ng_operand.OperandPegImpl).WithBitMode : arg1 == env.BitMode
 //@ calls[size@C03] (*asmdb.InstructionDB).FindMinOutputSize : arg1 == "OUT" && vcSame(arg2, vcResult[ng_operand.Operands]("WithBitMode", 0))
@@ -310,7 +309,6 @@ func specHasHandler(op string) bool { _, ok := opcodeEvalFns[op]; return ok }
 
 //@ func processIN
 //@ props C03 C07
-//@ option no-panic-obligations
 //@ requires env != nil && env.Client != nil && env.AsmDB != nil
 //@ calls[mode@C03] (*ng_operand.OperandPegImpl).WithBitMode : arg1 == env.BitMode
 //@ calls[size@C03] (*asmdb.InstructionDB).FindMinOutputSize : arg1 == "IN" && vcSame(arg2, vcResult[ng_operand.Operands]("WithBitMode", 0))
@@ -321,11 +319,12 @@ func specHasHandler(op string) bool { _, ok := opcodeEvalFns[op]; return ok }
 
 //@ func processPushPopCommon
 //@ props C03 C07
-//@ option no-panic-obligations
 //@ requires env != nil && env.Client != nil && env.AsmDB != nil
+//@ requires[A1] forall(0, len(operands), func(k int) bool { return operands[k] != nil })
 //@ calls[mode@C03] (*ng_operand.OperandPegImpl).WithBitMode : arg1 == env.BitMode
 //@ calls[size@C03] (*asmdb.InstructionDB).FindMinOutputSize : arg1 == instName && vcSame(arg2, vcResult[ng_operand.Operands]("WithBitMode", 0))
 //@ ensures[loc@C03] vcCalled("Emit") && vcResult[error]("FindMinOutputSize", 1) == nil ==> env.LOC == old(env.LOC)+int32(vcResult[int]("FindMinOutputSize", 0))
 //@ ensures[loc.none@C03] !vcCalled("Emit") ==> env.LOC == old(env.LOC)
 //@ ensures[nodrop@C07] vcCalled("Emit") || vcLoggedError()
+//@ ensures[count@C07] len(operands) != 1 ==> vcLoggedError() && !vcCalled("Emit") && env.LOC == old(env.LOC)
 //@ assigns Pass1.LOC, ocodeClient.Ocodes, OperandPegImpl.bitMode, OperandType[]
